@@ -25,6 +25,7 @@ func init() {
 	register("kf.C08-c", kfC08c)
 	register("kf.C09-g", kfC09g)
 	register("kf.C11-a.sysc", kfC11aSysc)
+	register("kf.C07-a.loop", kfC07aLoop)
 }
 
 var syscMu sync.Mutex
@@ -331,6 +332,21 @@ func kfC11aSysc(g *hx.Gen, id int) hx.Case {
 		{kind: 'R', method: "GET", path: pc}, {kind: 'T', dt: 6},
 		{kind: 'R', method: "GET", path: p, hdr: [][2]string{{"Authorization", cred}}}}
 	return syscRun("kf.C11-a.sysc", id, 0, ops)
+}
+
+// C07-a x C10-b seen from C05/C08/C09/C13: two Cache-Control LINES, the first with a zero lifetime, the second with a
+// positive one. GetCacheControlDirectives reads every line and lets the later number win (C10-b): the response is stored.
+// headerToS writes only h.Get(k), the FIRST value (C07-a): the entry reads back as max-age=0, due for revalidation at age 0.
+// An origin that answers the revalidation 304 sends cachingFunc round: re-published, re-entered, due again, revalidated again ...
+func kfC07aLoop(g *hx.Gen, id int) hx.Case {
+	syscMu.Lock()
+	defer syscMu.Unlock()
+	first := []string{"max-age=0", "s-maxage=0"}[id%2]
+	second := []string{"max-age=5", "s-maxage=5"}[id%2]
+	p := "kf7l" + hx.I(id)
+	ops := []scOp{{kind: 'O', path: p, status: 200, cond: true, rerr: -1, hdr: [][2]string{{"Cache-Control", first}, {"Cache-Control", second}, {"ETag", "\"e1\""}}, body: []byte("body-" + p + "-v1")},
+		{kind: 'R', method: "GET", path: p}, {kind: 'T', dt: 1}, {kind: 'R', method: "GET", path: p}}
+	return syscRun("kf.C07-a.loop", id, 0, ops)
 }
 
 func syscRun(stream string, id int, force int, ops []scOp) hx.Case {
